@@ -35,7 +35,7 @@ func init() {
 			"conf.CaseSensitive is process-global: one setting per worker",
 			"nested fields are not generated (one document, several IDs is outside the statement)",
 		},
-		Batches: tiered(48, 320),
+		Batches: tiered(144, 2880),
 		Run:     runC11,
 		Timeout: timeoutFor(8*time.Minute, 40*time.Minute),
 	})
